@@ -18,7 +18,6 @@ class World:
         self.repo = repo
         self.I = I = Interp(repo)
         D = I.D
-        I.opaque_funcs['pmutt.io._get_file_timestamp'] = lambda I_, fr, a, k, n: '! generated by pMuTT'
         self.sites = []
         for si in range(2 if two_sites else 1):
             nm = self.text('site%d' % si, 2)
@@ -447,7 +446,6 @@ def run_files(run, repo):
     m = repo.module(CK)
     I = Interp(repo)
     D = I.D
-    I.opaque_funcs['pmutt.io._get_file_timestamp'] = lambda I_, fr, a, k, n: '! generated by pMuTT'
     n = 3
     Ts, Ps, Qs, As = (ListV([D.sym('%s%d' % (q, i)) for i in range(n)]) for q in 'TPQA')
     fn = m.functions['write_T_flow']
